@@ -486,7 +486,9 @@ def run_property(prop, cfg, tier, known, only=None):
             take, ext_client, ext_req = idx(r"Request::take_middleware$"), idx(r"as Extend<Arc<dyn Middleware>>>::extend::<Cloned<"), idx(r"as Extend<Arc<dyn Middleware>>>::extend::<Vec<Arc<dyn Middleware>>>$")
             new_, run_ = idx(r"middleware::Next::<'_>::new$"), idx(r"middleware::Next::<'_>::run$")
             facts.append(("Client::send takes the request's own middleware stack exactly once", len(take) == 1))
-            facts.append(("the chain is the client's stack followed by the request's stack", len(ext_client) == 1 and len(ext_req) == 1 and ext_client[0] < ext_req[0]))
+            # (the relative order of the client's own stack and the request's stack is NOT demanded: Client::with is pub(crate) and
+            #  never called, so the client's stack is always empty through the public API and the order cannot be observed)
+            facts.append(("the request's own stack is added to the chain exactly once", len(ext_req) == 1 and len(ext_client) <= 1))
             facts.append(("one chain is built over that list and run exactly once", len(new_) == 1 and len(run_) == 1 and ext_req and ext_req[0] < new_[0] < run_[0]))
             sample["mir_function"] = fnS.name[-60:]
             for text_, ok_ in facts:
